@@ -26,12 +26,17 @@ PROFILES = {
     "symloop": dict(features={"arith", "loop", "symloop", "storage", "mem"}, nstmts=(1, 2), depth=1),
     "symjump": dict(features={"arith", "symjump", "mem"}, nstmts=(1, 2), depth=0),
     "callfail": dict(features={"arith", "callfail", "call", "storage"}, nstmts=(1, 3), depth=1, branchy=0.8),
+    # CREATE2 (DESIGN.md 10.2.x): creations by the executing account and by callees that create (sender = callee, or the
+    # caller under DELEGATECALL / CALLCODE; a creating callee reached by STATICCALL halts)
+    "create2": dict(features={"arith", "create2", "mem", "env"}, nstmts=(1, 3), depth=1, c2pool=True),
 }
 
 
 def make(rng, profile, options=None, nargs=2):
     prof = PROFILES[profile]
-    if "branchy" in prof:
+    if prof.get("c2pool"):
+        pool_codes = [asm.assemble(progen.c2_callee(rng, i)) for i in range(len(POOL_ADDRS))]
+    elif "branchy" in prof:
         pool_codes = progen.callee_pool(rng, len(POOL_ADDRS), branchy=prof["branchy"])
     else:
         pool_codes = progen.callee_pool(rng, len(POOL_ADDRS)) if "call" in prof["features"] else []
